@@ -40,6 +40,7 @@ type Plan struct {
 	Linger       bool `json:"linger,omitempty"`         // after N values keep the channel open until ctx is done
 	IgnoreCtx    bool `json:"ignore_ctx,omitempty"`     // the stream handler never looks at its context (keeps sending / lingering)
 	ElemPad      int  `json:"elem_pad,omitempty"`       // pad each stream element
+	RevRetry     bool `json:"rev_retry,omitempty"`      // reverse calls go through retry-tagged fields of the reverse client
 	RevBig       int  `json:"rev_big,omitempty"`        // one reverse call whose argument, and therefore the client's response, has this many bytes
 	RevStream    int  `json:"rev_stream,omitempty"`     // the handler subscribes to a stream of this many elements served by the calling client
 	RevStreamPad int  `json:"rev_stream_pad,omitempty"` // padding of every (odd) element of that stream
@@ -243,6 +244,9 @@ type RevClient struct {
 	Slow  func(ctx context.Context, tok string) (string, error)
 	Boom  func(ctx context.Context, tok string) (string, error)
 	Event func(ctx context.Context, tok string) error `notify:"true"`
+	// retry-tagged twins of Ident and Slow
+	IdentRetry func(ctx context.Context, tok string) (string, error) `retry:"true" rpc_method:"Rev.Ident"`
+	SlowRetry  func(ctx context.Context, tok string) (string, error) `retry:"true" rpc_method:"Rev.Slow"`
 	// Stream is served by the client: a reverse-direction subscription
 	Stream func(ctx context.Context, tok string, n int, pad int) (<-chan Item, error)
 	// Other lives on a second client-side handler, registered under its own namespace
@@ -278,7 +282,11 @@ func (a *TokAPI) body(ctx context.Context, tok string, plan Plan) (Result, error
 			revs = append(revs, "!absent")
 			continue
 		}
-		id, err := rc.Ident(ctx, tok)
+		ident := rc.Ident
+		if plan.RevRetry {
+			ident = rc.IdentRetry
+		}
+		id, err := ident(ctx, tok)
 		if err != nil {
 			a.W.mu.Lock()
 			s.revErrs = append(s.revErrs, err.Error())
@@ -368,7 +376,11 @@ func (a *TokAPI) body(ctx context.Context, tok string, plan Plan) (Result, error
 			a.W.mu.Lock()
 			s.inReverse = true
 			a.W.mu.Unlock()
-			id, err := rc.Slow(ctx, tok)
+			slow := rc.Slow
+			if plan.RevRetry {
+				slow = rc.SlowRetry
+			}
+			id, err := slow(ctx, tok)
 			a.W.mu.Lock()
 			s.inReverse = false
 			if err != nil {
